@@ -255,9 +255,10 @@ End Second.
 Definition finish_sheet (name : str) (dims : Z * Z) (w : wsheet) : sheetw :=
   {| sw_name := name; sw_rows := fst dims + ws_appended w; sw_cols := snd dims; sw_writes := ws_writes w |}.
 
-(** _initialize_output_file: years_2_accounting_method_names[MIN_DATE.year] when there is one entry *)
+(** _initialize_output_file: with one entry the method is taken by value when the source has the F10 repair (flag read by
+    the translator), otherwise looked up under MIN_DATE.year = 1970 (KeyError for any other key) *)
 Definition method_lookup_ok (sched : list (Z * meth)) : bool :=
-  match sched with [(y, _)] => y =? 1970 | _ => true end.
+  match sched with [(y, _)] => gen_ods_single_method_by_value || (y =? 1970) | _ => true end.
 
 (** optional repair of the KeyError (finding F8-openpos), recognised by the translator when present between the two passes:
       for asset in [a for a in asset_cost_bases if a not in asset_crypto_balance_holder]:
